@@ -393,15 +393,26 @@ func (c *Conn) State() ConnState {
 // been written to this connection (and received by the client side): before the broker's Write
 // returns. f typically makes ANOTHER client act and waits for that client's answer.
 func (c *Conn) WhenWritten(pattern []byte, f func()) {
+	var mu sync.Mutex
 	var seen []byte
+	fired := false
 	c.OnWritten(func(p []byte) bool {
+		// other broker goroutines may write to the connection while f runs: f runs once
+		mu.Lock()
+		if fired {
+			mu.Unlock()
+			return true
+		}
 		seen = append(seen, p...)
 		if !bytes.Contains(seen, pattern) {
 			if len(seen) > 1<<20 {
 				seen = seen[len(seen)-len(pattern):]
 			}
+			mu.Unlock()
 			return false
 		}
+		fired = true
+		mu.Unlock()
 		f()
 		return true
 	})
